@@ -1,6 +1,7 @@
 package main
 
 import (
+	"os/exec"
 	"encoding/json"
 	"bytes"
 	"context"
@@ -17,6 +18,7 @@ import (
 
 	"github.com/cosmos/cosmos-sdk/store/prefix"
 	sdk "github.com/cosmos/cosmos-sdk/types"
+	"github.com/cosmos/cosmos-sdk/types/bech32"
 	authtypes "github.com/cosmos/cosmos-sdk/x/auth/types"
 	"github.com/cosmos/cosmos-sdk/x/params"
 	paramproposal "github.com/cosmos/cosmos-sdk/x/params/types/proposal"
@@ -475,6 +477,32 @@ func (e *Env) Exec(line string) string {
 				return "", err
 			}
 			_, err := e.msg.SetDelegateKeys(sdk.WrapSDKContext(ctx), msg)
+			return "ok", err
+		})
+	case "delegatek":
+		// delegatek chain val orch eth signedBy signedVal signedNonce accSeq: like `delegate`, but the signature is made by the
+		// repository's keys generator (mhub-keys-generator make_delegate_sign <key> <account> <nonce>), run as it is
+		return e.runTx(func(ctx sdk.Context) (string, error) {
+			valB, _ := hex.DecodeString(w[2])
+			valAcc := sdk.AccAddress(valB)
+			a := e.acc.GetAccount(ctx, valAcc)
+			if a == nil {
+				a = e.acc.NewAccountWithAddress(ctx, valAcc)
+			}
+			if err := a.SetSequence(u(w[8])); err != nil {
+				return "", err
+			}
+			e.acc.SetAccount(ctx, a)
+			sig, err := keysgenSign(w[5], w[6], u(w[7]))
+			if err != nil {
+				return "", err
+			}
+			msg := &types.MsgDelegateKeys{ValidatorAddress: valStr(w[2]), OrchestratorAddress: accStr(w[3]), ExternalAddress: w[4],
+				EthSignature: sig, ChainId: w[1]}
+			if err := msg.ValidateBasic(); err != nil {
+				return "", err
+			}
+			_, err = e.msg.SetDelegateKeys(sdk.WrapSDKContext(ctx), msg)
 			return "ok", err
 		})
 	case "q_confs":
@@ -974,4 +1002,34 @@ func (e *Env) exportImport() {
 	}
 	ne.ctx = ne.rootCtx
 	*e = *ne
+}
+
+// keysgenAvailable: the keys generator binary built from the repository by bin/check.
+func keysgenAvailable() bool {
+	p := os.Getenv("VERIF_KEYSGEN")
+	if p == "" {
+		return false
+	}
+	_, err := os.Stat(p)
+	return err == nil
+}
+
+// keysgenSign runs the repository's keys generator: the key of `signedBy` signs (validator account, nonce).  The tool
+// takes the validator's account address with the application's account prefix ("hub").
+func keysgenSign(signedBy, valHex string, nonce uint64) ([]byte, error) {
+	k := ethKeyByAddr[signedBy]
+	if k == nil {
+		return []byte{1}, nil // not a key we hold: an invalid signature
+	}
+	valB, _ := hex.DecodeString(valHex)
+	acc, err := bech32.ConvertAndEncode("hub", valB)
+	if err != nil {
+		return nil, err
+	}
+	out, err := exec.Command(os.Getenv("VERIF_KEYSGEN"), "make_delegate_sign", hex.EncodeToString(crypto.FromECDSA(k)), acc, strconv.FormatUint(nonce, 10)).Output()
+	if err != nil {
+		return nil, fmt.Errorf("keys generator: %v", err)
+	}
+	s := strings.TrimSpace(string(out))
+	return hex.DecodeString(strings.TrimPrefix(s, "0x"))
 }
